@@ -254,7 +254,8 @@ def model_runs(tier: str):
     if tier == "quick":
         return [{"module": "MC_C04", "constants": {"NMax": 4, "Family": '"perm"'}},
                 {"module": "MC_C04", "constants": {"NMax": 3, "Family": '"multi"'}}]
-    return [{"module": "MC_C04", "constants": {"NMax": 6, "Family": '"perm"'}, "heap": "6g"},
+    # (n = 6: 3 million behaviours, each replayed through six evaluations - every third one is replayed, all are model-checked)
+    return [{"module": "MC_C04", "constants": {"NMax": 6, "Family": '"perm"'}, "heap": "6g", "stride": 3},
             {"module": "MC_C04", "constants": {"NMax": 4, "Family": '"multi"'}}]
 
 
